@@ -2,4 +2,4 @@
 # MANIFEST.hooks.baseline_off_cmd: rebuild the repository's test suite (no verification guard defined) and run it.
 set -e
 cmake --build /repo/_build -j"$(nproc)" > /tmp/verif_baseline_build.log 2>&1 || { tail -50 /tmp/verif_baseline_build.log; exit 1; }
-ctest --test-dir /repo/_build -j8 --timeout 900 --no-tests=error --output-on-failure
+ctest --test-dir /repo/_build/test -j8 --timeout 900 --no-tests=error --output-on-failure
